@@ -34,9 +34,11 @@ class OATDOE_Settings(BaseDOESettings):  # noqa: N801
 
     step: PositiveFloat = Field(
         default=0.05,
+        le=0.5,
         description="""The relative step of the OAT DOE.
 
 The step in the ``x`` direction is
 step*(max_x-min_x)`` if ``x+step*(max_x-min_x)<=max_x`` and
-``-step*(max_x- min_x)`` otherwise.""",
+``-step*(max_x- min_x)`` otherwise.
+It must be at most 0.5 so that every sample stays in the variables space.""",
     )
